@@ -251,6 +251,11 @@ Definition below (v : value) : list nat :=
 
 Definition ev_id (e : nat * value) : option nat := vid (snd e).
 
+(* number of calls of the processor registered under p on the object with identity i *)
+Definition is_call (p i : nat) (e : nat * value) : bool :=
+  Nat.eqb (fst e) p && match ev_id e with Some j => Nat.eqb j i | None => false end.
+Definition calls_on (p i : nat) (log : list (nat * value)) : nat := length (filter (is_call p i) log).
+
 Fixpoint values_to_list (vs : values) : list value :=
   match vs with VsNil => [] | VsCons v vs0 => v :: values_to_list vs0 end.
 
@@ -296,6 +301,47 @@ Fixpoint run_phases (ps : list phase) (models : list nat) (unresolved : bool) : 
 Definition is_proc (e : lev) : bool := match e with LProc _ => true | _ => false end.
 Definition is_link_or_init (e : lev) : bool :=
   match e with LResolve _ | LInit _ => true | _ => false end.
+
+(* no resolve/init event after a processor event *)
+Fixpoint procs_last (tr : list lev) : bool :=
+  match tr with
+  | [] => true
+  | e :: tr' =>
+      (if is_proc e then forallb (fun x => negb (is_link_or_init x)) tr' else true) && procs_last tr'
+  end.
+
+Definition lev_is_proc_of (m : nat) (e : lev) : bool := match e with LProc k => Nat.eqb k m | _ => false end.
+Definition lev_is_init_of (m : nat) (e : lev) : bool := match e with LInit k => Nat.eqb k m | _ => false end.
+
+(* static shape conditions on a phase list (decidable; evaluated on the translated list) *)
+Definition step_is_proc (s : pstep) : bool := match s with SCallProcessors => true | _ => false end.
+Definition step_is_init (s : pstep) : bool := match s with SEndConstruction => true | _ => false end.
+Definition phase_has_proc (p : phase) : bool := match p with PForEach b => existsb step_is_proc b | _ => false end.
+Definition phase_has_link (p : phase) : bool :=
+  match p with PResolveLoop => true | PForEach b => existsb step_is_init b | PRaiseUnresolved => false end.
+
+Fixpoint no_link_after_proc (ps : list phase) : bool :=
+  match ps with
+  | [] => true
+  | p :: ps' =>
+      (if phase_has_proc p then forallb (fun q => negb (phase_has_link q)) (p :: ps') else true)
+      && no_link_after_proc ps'
+  end.
+
+Fixpoint guarded (ps : list phase) : bool :=
+  match ps with
+  | [] => true
+  | PRaiseUnresolved :: _ => true
+  | p :: ps' => negb (phase_has_proc p) && guarded ps'
+  end.
+
+Definition nprocs_phase (p : phase) : nat :=
+  match p with PForEach b => length (filter step_is_proc b) | _ => 0 end.
+Definition nprocs (ps : list phase) : nat := fold_right (fun p n => nprocs_phase p + n) 0 ps.
+
+Definition ninits_phase (p : phase) : nat :=
+  match p with PForEach b => length (filter step_is_init b) | _ => 0 end.
+Definition ninits (ps : list phase) : nat := fold_right (fun p n => ninits_phase p + n) 0 ps.
 
 (* ---------------------------------------------------------------- printing / harness *)
 (* canonical text of values and logs (mirrored by tools/props/c13_common.py show_value) and
